@@ -453,7 +453,7 @@ Section RemH.
       let n := ts B kk S in
       plinkP rp r /\ plinkP r n /\ In r (inners S) /\
       (In n (inners S) -> plinkP (nparent h (ByKey kk) n S p) n /\ B (nparent h (ByKey kk) n S p) < B n) /\
-      (forall x, In x (pathin B kk S) -> B x <= B r).
+      (forall x, In x (pathin B kk S) -> B x <= B r) /\ B rp < B r.
     Proof.
       induction 1 as [|pbp c cn l rl tl tr Hc LT HL HR Rl IHl Rr IHr];
         intros p pp NLf TB NR0 PP BP NP; [discriminate|].
@@ -473,9 +473,9 @@ Section RemH.
           cbn [referrer ts fst snd nparent pathin inners] in *.
           split; [exact PP|]. split; [exact PC|]. split; [left; reflexivity|]. split.
           * intros I. destruct (NP I) as [E | []]. subst rl. rewrite Nat.eqb_refl. split; auto. rewrite NB. lia.
-          * intros x [<- | []]. lia.
+          * split; [intros x [<- | []]; lia | rewrite NB; lia].
         + set (tr := PNode j ta tb) in *.
-          destruct (IHr c p eq_refl Tr) as [Q1 [Q2 [Q3 [Q4 Q5]]]]; auto; try lia.
+          destruct (IHr c p eq_refl Tr) as [Q1 [Q2 [Q3 [Q4 [Q5 Q6]]]]]; auto; try lia.
           { intros I. apply NR0. right. apply in_or_app. auto. }
           { intros I. destruct NP as [E | Q]; auto. right. apply in_or_app. auto.
             exfalso. pose proof (rep_inner_bp _ _ _ _ Rr c) as W. rewrite <- E in I. specialize (W I). rewrite NB in W. lia. }
@@ -483,7 +483,7 @@ Section RemH.
           * intros I. destruct (Nat.eqb_spec c (ts B kk tr)) as [E|NE].
             -- rewrite <- E. split; auto. rewrite NB. lia.
             -- apply Q4. destruct (NP I) as [E | Q]; [congruence | now apply (pathin_inners B kk)].
-          * intros x [<- | Hx]; auto. pose proof (rep_inner_bp _ _ _ _ Rr _ Q3). lia.
+          * split; [|exact Q6]. intros x [<- | Hx]; auto. pose proof (rep_inner_bp _ _ _ _ Rr _ Q3). lia.
       - assert (PC : plinkP c l).
         { exists cn. split; auto. split; [right; lia|]. rewrite SD. split; congruence. }
         destruct tl as [j|j ta tb].
@@ -491,9 +491,9 @@ Section RemH.
           cbn [referrer ts fst snd nparent pathin inners] in *.
           split; [exact PP|]. split; [exact PC|]. split; [left; reflexivity|]. split.
           * intros I. destruct (NP I) as [E | []]. subst l. rewrite Nat.eqb_refl. split; auto. rewrite NB. lia.
-          * intros x [<- | []]. lia.
+          * split; [intros x [<- | []]; lia | rewrite NB; lia].
         + set (tl := PNode j ta tb) in *.
-          destruct (IHl c p eq_refl Tl) as [Q1 [Q2 [Q3 [Q4 Q5]]]]; auto; try lia.
+          destruct (IHl c p eq_refl Tl) as [Q1 [Q2 [Q3 [Q4 [Q5 Q6]]]]]; auto; try lia.
           { intros I. apply NR0. right. apply (in_or_app (inners tl) (inners tr)). auto. }
           { intros I. destruct NP as [E | Q]; auto. right. apply (in_or_app (inners tl) (inners tr)). auto.
             exfalso. pose proof (rep_inner_bp _ _ _ _ Rl c) as W. rewrite <- E in I. specialize (W I). rewrite NB in W. lia. }
@@ -501,7 +501,7 @@ Section RemH.
           * intros I. destruct (Nat.eqb_spec c (ts B kk tl)) as [E|NE].
             -- rewrite <- E. split; auto. rewrite NB. lia.
             -- apply Q4. destruct (NP I) as [E | Q]; [congruence | now apply (pathin_inners B kk)].
-          * intros x [<- | Hx]; auto. pose proof (rep_inner_bp _ _ _ _ Rl _ Q3). lia.
+          * split; [|exact Q6]. intros x [<- | Hx]; auto. pose proof (rep_inner_bp _ _ _ _ Rl _ Q3). lia.
     Qed.
   End PathFacts.
 
@@ -682,5 +682,141 @@ Section RemH.
           -- rewrite Hrp in Hj. injection Hj as <-. rewrite LKrp. eexists. split; [reflexivity|].
              split; [apply setl_key | apply setl_val].
           -- rewrite LK2 by auto. eauto.
+  Qed.
+
+  Lemma side_eval : forall (g : heap) kk r0 x xn', nth_error g x = Some xn' -> (x = r0 \/ 1 <= n_bp xn') ->
+    (if Nat.eqb x r0 then ROk false else xn <- hget g x ;; kbit kk (n_bp xn)) =
+      ROk (if Nat.eqb x r0 then false else PatInv.pbit kk (n_bp xn')).
+  Proof.
+    intros g kk r0 x xn' H B1. destruct (Nat.eqb_spec x r0) as [E|NE]; auto.
+    unfold hget. rewrite H. cbn [rbind]. destruct B1 as [E|B1]; [contradiction|]. now apply kbit_pos.
+  Qed.
+
+  Lemma nparent_last : forall (h : heap) kk T a b, is_leaf T = false -> NoDup (inners T) ->
+    nparent h (ByKey kk) (snd (referrer h (ByKey kk) T a b)) T b = fst (referrer h (ByKey kk) T a b).
+  Proof.
+    induction T as [i|i l IHl rr IHr]; intros a b NL ND; [discriminate|]. cbn [referrer nparent dside].
+    simpl in ND. apply NoDup_cons_iff in ND as [NI ND]. apply nodup_app_iff in ND as [Nl [Nr _]].
+    rewrite in_app_iff in NI. destruct (PatInv.pbit kk (nbp h i)).
+    - destruct rr as [j|j x y]; [simpl; now rewrite Nat.eqb_refl|].
+      pose proof (referrer_in h kk (PNode j x y) b i eq_refl) as Q.
+      destruct (Nat.eqb_spec i (snd (referrer h (ByKey kk) (PNode j x y) b i))) as [E|NE]; [rewrite <- E in Q; tauto|].
+      now apply IHr.
+    - destruct l as [j|j x y]; [simpl; now rewrite Nat.eqb_refl|].
+      pose proof (referrer_in h kk (PNode j x y) b i eq_refl) as Q.
+      destruct (Nat.eqb_spec i (snd (referrer h (ByKey kk) (PNode j x y) b i))) as [E|NE]; [rewrite <- E in Q; tauto|].
+      now apply IHl.
+  Qed.
+
+  Lemma nparent_notin : forall (h : heap) kk n T b, ~ In n (inners T) ->
+    nparent h (ByKey kk) n T b = lastinner (nbp h) kk T b.
+  Proof.
+    induction T as [i|i l IHl rr IHr]; intros b NI; [reflexivity|]. cbn [nparent dside lastinner].
+    simpl in NI. rewrite in_app_iff in NI. destruct (Nat.eqb_spec i n) as [E|NE]; [tauto|].
+    unfold pchild. destruct (PatInv.pbit kk (nbp h i)); [apply IHr | apply IHl]; tauto.
+  Qed.
+
+  Theorem p_remove_ok : forall (t : pstate) r0 rn0 c0 T kk h n rp r np,
+    PInvN t r0 rn0 c0 T -> owns T -> NoDup (leaves T) -> In r0 (leaves T) -> is_leaf T = false ->
+    h = pheap t -> n = ts (nbp h) kk T -> nkey h n = kk ->
+    referrer h (ByKey kk) T r0 r0 = (rp, r) -> np = nparent h (ByKey kk) n T r0 ->
+    exists H' co,
+      p_remove t r0 n r rp np = ROk {| psize := psize t - 1; proot := Some (rho n r r0); pheap := H' |} /\
+      relinked h H' kk n r rp np co.
+  Proof.
+    intros t r0 rn0 c0 T kk h n rp r np I OW NDl RL NLf Eh En KN Erf Enp.
+    destruct I as [q_root0 q_rn0 q_left0 q_right0 q_bp0 q_rep0 q_single0 q_nodup0 q_bits0 q_keys0 q_size0].
+    rewrite <- Eh in *.
+    assert (R0I : ~ In r0 (inners T)).
+    { intros F. pose proof (rep_inner_bp _ _ _ _ q_rep0 r0 F) as Q. unfold nbp in Q. rewrite q_rn0 in Q. lia. }
+    assert (NP : In (ts (nbp h) kk T) (inners T) -> In (ts (nbp h) kk T) (pathin (nbp h) kk T)) by (now apply target_on_path).
+    assert (PP0 : plinkP h kk r0 r0 c0).
+    { exists rn0. split; auto. split; auto. unfold sd. rewrite Nat.eqb_refl. split; congruence. }
+    assert (B0 : nbp h r0 <= 0) by (unfold nbp; rewrite q_rn0; lia).
+    pose proof (path_facts h kk r0 T 0 c0 q_rep0 r0 r0 NLf q_bits0 R0I PP0 B0 NP) as PF.
+    cbv zeta in PF. rewrite Erf in PF. rewrite <- En in PF. cbn [fst snd] in PF. rewrite <- Enp in PF.
+    destruct PF as [PRP [PR [RI [PN [PB BRP]]]]].
+    assert (RR0 : r <> r0) by (intros E; rewrite E in RI; contradiction).
+    destruct PR as [rnode [Hr [_ Hrs]]].
+    assert (SDr : sd h kk r0 r = PatInv.pbit kk (n_bp rnode)).
+    { unfold sd. rewrite (proj2 (Nat.eqb_neq _ _) RR0). unfold nbp. now rewrite Hr. }
+    rewrite SDr in Hrs.
+    destruct (inner_links h 0 c0 T r q_rep0 RI) as [rnode' [la [rb [Hr' [HLa [HRb Br1]]]]]].
+    rewrite Hr in Hr'. injection Hr' as <-.
+    set (co := if PatInv.pbit kk (n_bp rnode) then la else rb).
+    assert (Hco : (if PatInv.pbit kk (n_bp rnode) then n_left rnode else n_right rnode) = Some co).
+    { unfold co. destruct (PatInv.pbit kk (n_bp rnode)); auto. }
+    assert (NL : In n (leaves T)) by (rewrite En; apply ts_in).
+    destruct (rep_valid _ _ _ _ q_rep0) as [_ VL]. pose proof (VL n NL) as Ln.
+    destruct (nth_error h n) as [nn|] eqn:Hn; [|apply nth_error_None in Hn; lia].
+    assert (KNN : n_key nn = kk) by (unfold nkey in KN; now rewrite Hn in KN).
+    assert (SZ : (psize t - 1 =? 0) = false).
+    { apply Z.eqb_neq. rewrite q_size0. destruct T as [i|i a b]; [discriminate|]. pose proof (leaves_two i a b). lia. }
+    (* the referrer's predecessor *)
+    destruct PRP as [rpn [Hrp [Brp Lrp]]].
+    assert (S1 : (if Nat.eqb rp r0 then ROk false else xn <- hget h rp ;; kbit kk (n_bp xn)) = ROk (sd h kk r0 rp)).
+    { rewrite (side_eval h kk r0 rp rpn Hrp Brp). unfold sd, nbp. now rewrite Hrp. }
+    assert (RPR : rp <> r) by (intros E; rewrite E in BRP; lia).
+    unfold p_remove. rewrite <- Eh. unfold hget at 1. rewrite Hn. cbn [rbind]. unfold hget at 1. rewrite Hr. cbn [rbind].
+    rewrite KNN. rewrite (proj2 (Nat.eqb_neq _ _) RR0). rewrite kbit_pos by lia. cbn [rbind].
+    rewrite Hco.
+    destruct (Nat.eqb_spec n r) as [ENR|NNR].
+    - (* the target is the referrer itself: a single write *)
+      assert (NPRP : np = rp).
+      { rewrite Enp, ENR. pose proof (nparent_last h kk T r0 r0 NLf q_nodup0) as Q. rewrite Erf in Q. exact Q. }
+      rewrite NPRP, S1. cbn [rbind]. rewrite (set_eval h rp rpn _ _ Hrp). cbn [rbind]. rewrite SZ.
+      exists (hset h rp (setl rpn (sd h kk r0 rp) (Some co))), co. split.
+      + do 2 f_equal. unfold rho. rewrite ENR. now rewrite (proj2 (Nat.eqb_neq r0 r) (fun E => RR0 (eq_sym E))).
+      + rewrite ENR. apply (relinked_A h kk r rp co rpn rnode); auto.
+    - (* re-linking: three writes *)
+      assert (NPF : exists npn, nth_error h np = Some npn /\ (np = r0 \/ 1 <= n_bp npn) /\
+                      np <> rp /\ np <> n /\ (np = r \/ (np <> r /\ linked npn (sd h kk r0 np) n)) /\
+                      n_bp nn <= n_bp rnode /\ (n = r0 -> np = r)).
+      { destruct (in_dec Nat.eq_dec n (inners T)) as [I | NI].
+        - destruct (PN I) as [[npn [Hnp [Bnp Lnp]]] BNP].
+          assert (BN : nbp h n <= nbp h r) by (apply PB; rewrite En; apply NP; now rewrite <- En).
+          exists npn. split; auto. split; auto. split.
+          + intros E. rewrite E, Hrp in Hnp. injection Hnp as <-. rewrite E in Lnp.
+            destruct (sd h kk r0 rp); destruct Lnp as [A1 _]; destruct Lrp as [A2 _]; congruence.
+          + split; [intros E; rewrite E in BNP; lia|]. split.
+            * right. split; auto. intros E. rewrite E in BNP. lia.
+            * split; [unfold nbp in BN; now rewrite Hn, Hr in BN|]. intros E. rewrite E in I. contradiction.
+        - assert (NPR : np = r).
+          { rewrite Enp, nparent_notin by exact NI. pose proof (referrer_lastinner h kk T r0 r0) as Q.
+            rewrite Erf in Q. symmetry. exact Q. }
+          assert (N0 : n = r0).
+          { destruct (leaf_inner_or_root T r0 OW NDl q_nodup0 RL R0I n NL); tauto. }
+          exists rnode. rewrite NPR. split; auto. split; [right; lia|]. split; auto. split; auto. split; auto.
+          split; auto. rewrite N0 in Hn. rewrite q_rn0 in Hn. injection Hn as <-. lia. }
+      destruct NPF as [npn [Hnp [Bnp [NPRP [NPN [LNP [BPN N0NP]]]]]]].
+      set (s1 := sd h kk r0 rp) in *. set (s2 := sd h kk r0 np).
+      set (RP' := setl rpn s1 (Some co)). set (h1 := hset h rp RP').
+      assert (Lrp' : (rp < length h)%nat) by (apply nth_error_Some; congruence).
+      assert (H1np : nth_error h1 np = Some npn) by (unfold h1; now rewrite nth_hset_neq by auto).
+      set (NP' := setl npn s2 (Some r)). set (h2 := hset h1 np NP').
+      assert (L1np : (np < length h1)%nat) by (apply nth_error_Some; congruence).
+      set (NN2 := if Nat.eqb n rp then RP' else nn).
+      assert (H2n : nth_error h2 n = Some NN2).
+      { unfold h2. rewrite nth_hset_neq by auto. unfold h1, NN2. destruct (Nat.eqb_spec n rp) as [E|NE].
+        - rewrite E. now apply nth_hset_eq.
+        - now rewrite nth_hset_neq by auto. }
+      assert (H2r : exists rn2, nth_error h2 r = Some rn2 /\ n_key rn2 = n_key rnode /\ n_val rn2 = n_val rnode).
+      { unfold h2. destruct (Nat.eq_dec np r) as [E|NE].
+        - rewrite <- E. rewrite nth_hset_eq by exact L1np. exists NP'. split; auto.
+          assert (npn = rnode) by congruence. subst npn. split; [apply setl_key | apply setl_val].
+        - rewrite nth_hset_neq by auto. unfold h1. rewrite nth_hset_neq by auto. eauto. }
+      destruct H2r as [rn2 [H2r [RK RV]]].
+      rewrite S1. cbn [rbind]. rewrite (set_eval h rp rpn _ _ Hrp). cbn [rbind].
+      fold RP' h1. rewrite (side_eval h1 kk r0 np npn H1np Bnp). cbn [rbind].
+      assert (S2E : (if Nat.eqb np r0 then false else PatInv.pbit kk (n_bp npn)) = s2).
+      { unfold s2, sd, nbp. now rewrite Hnp. }
+      rewrite S2E. rewrite (set_eval h1 np npn _ _ H1np). cbn [rbind]. fold NP' h2.
+      unfold hget at 1. rewrite H2n. cbn [rbind]. unfold hget at 1. rewrite H2r. cbn [rbind]. rewrite SZ.
+      exists (heapB h n r rp np co rpn npn nn rnode s1 s2), co. split.
+      + unfold heapB. fold RP' NP' NN2 h1 h2. rewrite RK, RV. do 2 f_equal. unfold rho.
+        destruct (Nat.eqb_spec n r0) as [E|NE].
+        * rewrite (N0NP E), E. now rewrite Nat.eqb_refl.
+        * now rewrite (proj2 (Nat.eqb_neq r0 n) (fun E => NE (eq_sym E))).
+      + apply relinked_B; auto.
   Qed.
 End RemH.
